@@ -193,9 +193,10 @@ def ev(case, rec):
                     bad = True
                     rec.fail('a covariance was returned although none was supplied', site='transform:mga:vcv-none', observed=r[4],
                              case=one, coords=co)
-                # natural zone (skip when the transformed longitude is within 1e-7 deg of a zone edge)
+                # natural zone (not judged when the transformed longitude is within 5e-10 deg - 0.05 mm - of a zone edge: the library's
+                # own longitude carries the 1e-11 deg rounding of grid2geo)
                 edge = abs(((o['lon'] + 180.0) % 6.0 + 3.0) % 6.0 - 3.0)
-                if edge > 1e-7:
+                if edge > 5e-10:
                     if r[0] != o['zone']:
                         bad = True
                         rec.fail('result is not expressed in the natural zone of the transformed position', site='transform:mga:zone',
